@@ -214,3 +214,120 @@ def _outcome(f):
         return ("ok", repr(f()))
     except Exception as e:
         return ("err", type(e).__name__)
+
+
+# ------------------------------------------------------------------------------------ C10: the tag key is not an extra
+
+def forbidden_sets(exc):
+    """every ForbiddenExtraKeysError in the exception (tree): sorted list of frozensets of the keys it names"""
+    from cattrs.errors import ForbiddenExtraKeysError
+    out = []
+
+    def walk(e):
+        if isinstance(e, ForbiddenExtraKeysError):
+            out.append(frozenset(e.extra_fields))
+        for s in getattr(e, "exceptions", ()) or ():
+            walk(s)
+    walk(exc)
+    return sorted(out, key=sorted)
+
+
+def check_c10_tagged(v: Verdict, n_cfg):
+    """forbid_extra_keys x tagged unions, direct oracle (no model): a payload built as (a member's own dict) + (the tag) +
+    (a known set E of extra keys) is accepted, as that member, iff E is empty, and otherwise the ForbiddenExtraKeysError
+    names exactly E -- never the tag -- for known tags, and for unknown / missing tags when a default member is configured;
+    top level, inside List[U] and inside an attrs class attribute; with forbid_extra_keys off the extras are inert."""
+    from typing import List
+    rng = random.Random(v.seed * 7919 + 10)
+    hist = {"configs": 0, "payloads": 0, "with_default": 0, "unknown_tag": 0, "missing_tag": 0, "with_extras": 0, "nested_list": 0, "nested_class": 0, "forbid_off": 0}
+    for ci in range(n_cfg):
+        members = rng.sample(MEMBERS, rng.randint(2, 4))
+        u = Union[tuple(members)]
+        gen_kind, tag_gen = make_tag_gen(rng, members)
+        if len({tag_gen(m) for m in members}) != len(members):
+            continue
+        tag_name = rng.choice(["_type", "kind", "t"])
+        default = rng.choice([None, members[0], members[-1]])
+        dv = rng.random() < 0.5
+        forbid = rng.random() < 0.8
+        hist["configs"] += 1
+        hist["with_default"] += default is not None
+        hist["forbid_off"] += not forbid
+        c = Converter(detailed_validation=dv, forbid_extra_keys=forbid)
+        kwargs = {"tag_generator": tag_gen, "tag_name": tag_name}
+        if default is not None:
+            kwargs["default"] = default
+        configure_tagged_union(u, c, **kwargs)
+        Holder = attrs.make_class("Holder", {"x": attrs.field(type=u), "n": attrs.field(type=int, default=0)})
+        desc = {"battery": "C10/tagged", "union": [m.__name__ for m in members], "tag_generator": gen_kind, "tag_name": tag_name,
+                "default": getattr(default, "__name__", None), "forbid_extra_keys": forbid, "detailed_validation": dv}
+
+        def element():
+            m = rng.choice(members)
+            fields = [a.name for a in (attrs.fields(m) if attrs.has(m) and not dataclasses.is_dataclass(m) else dataclasses.fields(m))]
+            if tag_name in fields:
+                return None
+            x = m(**{f: rng.randrange(1, 40) for f in fields})
+            kind = rng.choice(["known", "known", "unknown", "missing"]) if default is not None else "known"
+            target = m
+            p = member_dict(x)
+            if kind != "known":
+                # unknown / missing tag: the default member structures the payload
+                target = default
+                dfields = [a.name for a in (attrs.fields(default) if attrs.has(default) and not dataclasses.is_dataclass(default) else dataclasses.fields(default))]
+                if tag_name in dfields:
+                    return None
+                x = default(**{f: rng.randrange(1, 40) for f in dfields})
+                p = member_dict(x)
+            E = set(rng.sample(["zz", "yy", "Tag"], rng.choice([0, 0, 1, 2])))
+            E -= set(p)
+            for k in E:
+                p[k] = 1
+            if kind == "known":
+                p[tag_name] = tag_gen(m)
+            elif kind == "unknown":
+                p[tag_name] = "no-such-tag"
+            if rng.random() < 0.5:
+                p = dict(reversed(list(p.items())))
+            hist["unknown_tag"] += kind == "unknown"
+            hist["missing_tag"] += kind == "missing"
+            hist["with_extras"] += bool(E)
+            return p, x, frozenset(E), kind
+
+        for _ in range(6):
+            shape = rng.choice(["top", "top", "list", "class"])
+            n = rng.randint(1, 3) if shape == "list" else 1
+            els = [element() for _ in range(n)]
+            if any(e is None for e in els):
+                continue
+            hist["payloads"] += 1
+            hist["nested_list"] += shape == "list"
+            hist["nested_class"] += shape == "class"
+            if shape == "top":
+                payload, T, want = els[0][0], u, els[0][1]
+            elif shape == "list":
+                payload, T, want = [e[0] for e in els], List[u], [e[1] for e in els]
+            else:
+                payload, T, want = {"x": els[0][0], "n": 3}, Holder, Holder(els[0][1], 3)
+            v.count(repr((desc, shape, repr(payload))), True)
+            import copy as _copy
+            try:
+                got = ("ok", c.structure(_copy.deepcopy(payload), T))
+            except Exception as e:  # noqa
+                got = ("err", e)
+            extras = [e[2] for e in els if e[2]]
+            rpl = {**desc, "shape": shape, "payload": repr(payload), "tags": [e[3] for e in els], "extra_keys_added": [sorted(e[2]) for e in els]}
+            if not forbid or not extras:
+                if got[0] != "ok" or got[1] != want:
+                    v.violation("a tagged-union payload without unknown keys (or with forbid_extra_keys off) was not structured as its member: the tag key counted as an extra, or extras were not inert",
+                                {**rpl, "got": repr(got[1])})
+                continue
+            if got[0] == "ok":
+                v.violation("forbid_extra_keys accepted a tagged-union payload with unknown keys", {**rpl, "got": repr(got[1])})
+                continue
+            named = forbidden_sets(got[1])
+            expect = sorted(extras, key=sorted) if dv else [extras[0]]
+            if named != expect:
+                v.violation("ForbiddenExtraKeysError does not name exactly the unknown keys of a tagged-union payload (the tag key is not an extra)",
+                            {**rpl, "named": [sorted(s) for s in named], "expected": [sorted(s) for s in expect], "error": repr(got[1])[:300]})
+    v.coverage["c10_tagged_battery"] = hist
